@@ -77,6 +77,7 @@ build_cdrv() { # $1 = bigint|maparr
 
 build_tests() {
   ( cd "$H" && go test -tags verif -c -o "$S/props.test" ./props ) >>"$S/build.log" 2>&1 || { cat "$S/build.log" >&2; die2 "harness build failed"; }
+  ( cd "$H" && go build -tags verif -o "$TC/bin/ferretd" ./cmd/ferretd ) >>"$S/build.log" 2>&1 || { cat "$S/build.log" >&2; die2 "ferretd build failed"; }
   ( cd "$H" && go build -o "$S/merge" ./cmd/merge ) >>"$S/build.log" 2>&1 || { cat "$S/build.log" >&2; die2 "merge tool build failed"; }
 }
 
@@ -92,7 +93,7 @@ conf() {
     C07) Q=120  T=1500 ;;
     C08) Q=60   T=800 ;;
     C09) Q=50   T=600 ;;
-    C10) Q=30   T=400 ;;
+    C10) Q=15   T=300 ;;
     C11) Q=6    T=150 ;;
     C12) Q=100  T=1200 ;;
     C13) Q=250  T=4000 ;;
